@@ -186,7 +186,8 @@ def parse_riscv(lines):
         elif mn in ("xor", "and", "or"):
             ins.append(Ins(mn, (_rvreg(o[0]), _rvreg(o[1]), _rvreg(o[2]), None), ln, text))
         elif mn in ("srli", "slli", "srliw", "slliw"):
-            ins.append(Ins("shr" if mn.startswith("srl") else "shl", (_rvreg(o[0]), _rvreg(o[1]), _imm(o[2])), ln, text))
+            # (RV64: the w forms work on the low 32 bits and sign-extend the result; the plain forms shift all 64 bits)
+            ins.append(Ins("shr" if mn.startswith("srl") else "shl", (_rvreg(o[0]), _rvreg(o[1]), _imm(o[2]), mn.endswith("w")), ln, text))
         elif mn == "addi":
             ins.append(Ins("addi", (_rvreg(o[0]), _rvreg(o[1]), _imm(o[2])), ln, text))
         elif mn == "mv":
@@ -379,10 +380,12 @@ class Path:
         self.sp_min = 0
         self.n_ins = 0
         self.problems = []
+        self.hi = {}          # RV64 only: register -> explicit bits 32..63 when they are NOT the sign extension of bit 31 (absent = canonical)
 
     def clone(self):
         p = Path()
         p.regs = dict(self.regs)
+        p.hi = dict(self.hi)
         p.mem = dict(self.mem)
         p.flags, p.carry, p.sar = self.flags, self.carry, self.sar
         p.events = list(self.events)
@@ -396,7 +399,8 @@ class Path:
 
 
 class Machine:
-    def __init__(self, family, ins, labels, entry, klen, windowed=False):
+    def __init__(self, family, ins, labels, entry, klen, windowed=False, xlen=32):
+        self.xlen = xlen
         self.fam = family
         self.ins = ins
         self.labels = labels
@@ -487,11 +491,24 @@ class Machine:
             return topword(self.W)
         return v
 
-    def wr(self, p, r, v):
+    def wr(self, p, r, v, hi=None):
         if self.fam == "riscv" and r == "x0":
             return
         p.regs[r] = v
         p.written.add(r)
+        # upper register half (RV64): kept only when it differs from the sign extension of the low word
+        if hi is not None and not isinstance(v, Lin) and any(h is not v[31] and h != v[31] for h in hi):
+            p.hi[r] = list(hi)
+        else:
+            p.hi.pop(r, None)
+
+    def hiw(self, p, r):
+        """bits 32..63 of a register holding data (RV64)"""
+        h = p.hi.get(r)
+        if h is not None:
+            return h
+        v = self.rdw(p, r)
+        return [v[31]] * 32
 
     def run(self, max_paths=64, max_ins=200000):
         start = self.labels.get(self.entry)
@@ -553,20 +570,30 @@ class Machine:
             if sh:
                 y = gf2.wlshr(y, sh[1]) if sh[0] == "lsr" else gf2.wshl(y, sh[1])
             r = {"xor": gf2.wxor, "and": gf2.wand, "or": gf2.wor}[op](x, y)
-            self.wr(p, rd, r)
+            rh = None
+            if self.xlen == 64 and (rn in p.hi or rm in p.hi):
+                rh = {"xor": gf2.wxor, "and": gf2.wand, "or": gf2.wor}[op](self.hiw(p, rn), self.hiw(p, rm))
+            self.wr(p, rd, r, rh)
             if I.setflags:
                 p.flags = r
             return pc + 1
         if op in ("shl", "shr"):
-            rd, rm, n = a
+            rd, rm, n = a[:3]
             x = self.rdw(p, rm)
-            r = gf2.wshl(x, n) if op == "shl" else gf2.wlshr(x, n)
-            self.wr(p, rd, r)
+            rh = None
+            if self.xlen == 64 and not (len(a) > 3 and a[3]):
+                # a full-width shift on RV64: the upper half (sign extension of a loaded word, unless changed) takes part
+                full = list(x) + list(self.hiw(p, rm))
+                full = gf2.wshl(full, n) if op == "shl" else gf2.wlshr(full, n)
+                r, rh = full[:32], full[32:]
+            else:
+                r = gf2.wshl(x, n) if op == "shl" else gf2.wlshr(x, n)
+            self.wr(p, rd, r, rh)
             if I.setflags:
                 p.flags = r
             return pc + 1
         if op == "mov":
-            self.wr(p, a[0], self.rd(p, a[1]))
+            self.wr(p, a[0], self.rd(p, a[1]), p.hi.get(a[1]))
             if I.setflags:
                 p.flags = p.regs[a[0]]
             return pc + 1
